@@ -1,5 +1,6 @@
 import BSModel.Driver.Util
 import BSModel.Model.Builder
+import BSModel.Model.ParseLink
 /-! protocol: `build|spec <cfg> <events>`
   cfg    = `pre=NAME.NAME cont=NAME:CLS.NAME:CLS` given as two tokens (`pre=-` / `cont=-` when empty)
   events = `;`-separated: `s:NAME:PFX` `e:NAME:PFX` (PFX `-` = none) `d:CPS` (`d:-` empty chunk) `x:CLS` / `x:-`
@@ -34,7 +35,23 @@ partial def showDoc : Doc → String
   | .elem n p ks => s!"<{showName n}|{match p with | none => "-" | some q => showName q}>[{String.join (ks.map showDoc)}]"
   | .text c s => s!"\"{c}:{showL s}\""
 
+def optId : Option Nat → String
+  | none => "-"
+  | some i => toString i
+
+/-- pointer dump of a parsed heap: `id parent ps ns pe ne kids` per node, `,`-separated, ids in creation order -/
+def dumpHeap (h : BS.Heap.Heap) : String :=
+  ",".intercalate ((List.range h.next).map fun i =>
+    s!"{i} {optId (h.parent i)} {optId (h.ps i)} {optId (h.ns i)} {optId (h.pe i)} {optId (h.ne i)} {if (h.kids i).isEmpty then "-" else ".".intercalate ((h.kids i).map toString)}")
+
 def handle : List String → String
+  | ["link", pre, cont, evs] =>
+    let cfg := mkCfg pre cont
+    match (splitNE ";" evs).mapM parseEv with
+    | none => "bad-op"
+    | some es =>
+      let acts := BS.ParseLink.actions cfg (St.init cfg) es
+      dumpHeap (BS.ParseLink.prun BS.ParseLink.PSt.init acts).heap
   | [which, pre, cont, evs] =>
     let cfg := mkCfg pre cont
     match (splitNE ";" evs).mapM parseEv with
